@@ -681,10 +681,30 @@ func runSkipSeqCase(raw json.RawMessage, w *TraceWriter) {
 			break
 		}
 		{
-			src := &dataSource{data: b, chunks: sh.chunks, wd: sh.wd}
+			// (with c.Fail: the stream starts with values the decoder has to REJECT on grammar grounds - an unknown type tag, a
+			// negative size, nesting beyond the limit; the caller skips each frame on the reader - the decoder only peeks -
+			// and goes on with the same decoder instance)
+			var junk [][]byte
+			if c.Fail {
+				deep, _ := nestValue("struct", 70, "empty")
+				junk = [][]byte{{8, 0, 1, 0, 0, 0, 7, 99, 0, 2, 1, 0}, {11, 0, 1, 0xff, 0xff, 0xff, 0xfe, 0}, deep.b}
+			}
+			var data []byte
+			for _, j := range junk {
+				data = append(data, j...)
+			}
+			data = append(data, b...)
+			src := &dataSource{data: data, chunks: sh.chunks, wd: sh.wd}
 			rd := bufiox.NewDefaultReader(src)
 			d := thrift.NewSkipDecoder(rd)
-			last := 0
+			for _, j := range junk {
+				if _, err := d.Next(thrift.STRUCT); err == nil {
+					break // (judged by C08; here the values behind it are what matters)
+				}
+				rd.Skip(len(j))
+				rd.Release(nil)
+			}
+			last := rd.ReadLen()
 			run("skipdec", sh.name, func(k int, t int8) ([]byte, int, error) {
 				x, err := d.Next(t)
 				cp := append([]byte(nil), x...) // the result is valid until Release: copy first
